@@ -2,7 +2,9 @@
 (* C17: tags stored as per-cell integer data, and the round trip through it.   *)
 (*                                                                             *)
 (*  - EncodeImpl / DecodeImpl : transcriptions of Mesh._encode_cell_data       *)
-(*    (skfem/mesh/mesh.py:323-371) and Mesh._decode_cell_data (373-396);       *)
+(*    (skfem/mesh/mesh.py:323-371) and Mesh._decode_cell_data (373-398, as     *)
+(*    repaired by commit 2ed791f; DecodeImplOld keeps the earlier decoder as   *)
+(*    a regression model);                                                     *)
 (*    ToMeshioImpl / FromMeshioImpl : skfem/io/meshio.py:262-299 and 53-259    *)
 (*    (first-order part: hexahedral vertex permutation, tags).                 *)
 (*  - RoundTripClauses(pre, post) : what C17 demands, relational, on abstract  *)
@@ -41,18 +43,20 @@ EncodeBoundaryImpl(c, ns, b) ==
 \* mesh.py:361-364  np.isin(np.arange(nt), subdomain).astype(int)
 EncodeSubdomainImpl(nt, s) == [k \in 1..nt |-> IF \E j \in DOMAIN s.ids : s.ids[j] = k THEN 1 ELSE 0]
 \* mesh.py:359-371: dictionary  "skfem:s:<name>" / "skfem:b:<name>" -> [array]; the key is kept as (typ, name)
+\* (the decoder recovers the name with name.split(":", 2), mesh.py:379: a ':' inside the name survives)
 EncodeImpl(tm, c) ==
   [i \in DOMAIN tm.sub |-> [typ |-> "s", name |-> tm.sub[i].name, data |-> EncodeSubdomainImpl(Len(tm.t), tm.sub[i])]]
   \o [i \in DOMAIN tm.bnd |-> [typ |-> "b", name |-> tm.bnd[i].name,
                                data |-> EncodeBoundaryImpl(c, NSlots(tm.kind), tm.bnd[i])]]
 
 \* ---------------------------------------------------------------------------
-\* mesh.py:385-394
+\* mesh.py:385-397  (the decoder as repaired by commit 2ed791f)
 \*   385-388  mask[s][k] = bit (s-1) of data[k]
-\*   389      facets = np.sort(self.t2f[mask])      boolean indexing runs slot-major, cell-minor; THEN SORTED
-\*   390      cells  = mask.nonzero()[1]            same slot-major order, NOT permuted with the sort
-\*   391      ori    = np.arange(2) @ (self.f2t[:, facets] == cells)
-\*   392-394  OrientedBoundary(facets, ori) if ori.any() else facets
+\*   389      facets = self.t2f[mask]               boolean indexing runs slot-major, cell-minor
+\*   390      cells  = mask.nonzero()[1]            same slot-major order
+\*   391-392  order = np.argsort(facets, kind='stable'); facets, cells = facets[order], cells[order]
+\*   393      ori    = np.arange(2) @ (self.f2t[:, facets] == cells)
+\*   394-396  OrientedBoundary(facets, ori) if ori.any() else facets
 Bit(x, s) == (x \div (2 ^ (s - 1))) % 2
 \* slot-major enumeration of the set positions of the mask: sequence of <<facet, cell>>
 MaskPairs(c, ns, data) ==
@@ -66,19 +70,28 @@ SortInts(s) == IF s = <<>> THEN <<>>
                ELSE LET mn == MinSet(VSet(s))
                         i  == FirstPos(s, mn)
                     IN <<mn>> \o SortInts(SubSeq(s, 1, i - 1) \o SubSeq(s, i + 1, Len(s)))
+\* stable sort of a sequence of pairs by their first component (np.argsort(kind='stable') applied to both arrays)
+RECURSIVE SortPairsByFirst(_)
+SortPairsByFirst(s) ==
+  IF s = <<>> THEN <<>>
+  ELSE LET firsts == [i \in DOMAIN s |-> s[i][1]]
+           i      == FirstPos(firsts, MinSet(VSet(firsts)))
+       IN <<s[i]>> \o SortPairsByFirst(SubSeq(s, 1, i - 1) \o SubSeq(s, i + 1, Len(s)))
 DecodeBoundaryImpl(c, ns, data) ==
-  LET pairs  == MaskPairs(c, ns, data)
-      facets == SortInts([i \in DOMAIN pairs |-> pairs[i][1]])            \* 389
-      cells  == [i \in DOMAIN pairs |-> pairs[i][2]]                       \* 390 (unsorted order)
-      ori    == [i \in DOMAIN pairs |->                                    \* 391: 0*[f2t[0] = cell] + 1*[f2t[1] = cell]
+  LET pairs  == SortPairsByFirst(MaskPairs(c, ns, data))                  \* 389-392
+      facets == [i \in DOMAIN pairs |-> pairs[i][1]]
+      cells  == [i \in DOMAIN pairs |-> pairs[i][2]]
+      ori    == [i \in DOMAIN pairs |->                                    \* 393: 0*[f2t[0] = cell] + 1*[f2t[1] = cell]
                    IF c.f2t[facets[i]][2] = cells[i] THEN 1 ELSE 0]
   IN [ids |-> facets, ori |-> ori]
-\* the same with the owner cells permuted together with the facets (candidate repair of finding #9)
-DecodeBoundaryFixed(c, ns, data) ==
+\* REGRESSION MODEL: the decoder before commit 2ed791f (finding #9) - facets = np.sort(self.t2f[mask]) while
+\* cells = mask.nonzero()[1] stayed in slot-major order, so flags were computed against the wrong cell.
+\* MC_C17_oriented.cfg must keep refuting it.
+DecodeBoundaryImplOld(c, ns, data) ==
   LET pairs  == MaskPairs(c, ns, data)
-      facets == SortInts([i \in DOMAIN pairs |-> pairs[i][1]])
-      cellOf(f) == pairs[CHOOSE i \in DOMAIN pairs : pairs[i][1] = f][2]  \* a facet occurs once per mask (one owner)
-      ori    == [i \in DOMAIN facets |-> IF c.f2t[facets[i]][2] = cellOf(facets[i]) THEN 1 ELSE 0]
+      facets == SortInts([i \in DOMAIN pairs |-> pairs[i][1]])            \* sorted
+      cells  == [i \in DOMAIN pairs |-> pairs[i][2]]                       \* NOT permuted with the sort
+      ori    == [i \in DOMAIN pairs |-> IF c.f2t[facets[i]][2] = cells[i] THEN 1 ELSE 0]
   IN [ids |-> facets, ori |-> ori]
 \* mesh.py:383  np.nonzero(data[0])[0]
 DecodeSubdomainImpl(data) == SelectSeq([k \in DOMAIN data |-> k], LAMBDA k : data[k] # 0)
@@ -88,8 +101,8 @@ DecodeWith(c, ns, cd, BoundaryDecoder(_, _, _)) ==
       bnds == SelectSeq(cd, LAMBDA x : x.typ = "b")
   IN [ sub |-> [i \in DOMAIN subs |-> [name |-> subs[i].name, ids |-> DecodeSubdomainImpl(subs[i].data)]],
        bnd |-> [i \in DOMAIN bnds |-> [name |-> bnds[i].name] @@ BoundaryDecoder(c, ns, bnds[i].data)] ]
-DecodeImpl(c, ns, cd)  == DecodeWith(c, ns, cd, DecodeBoundaryImpl)
-DecodeFixed(c, ns, cd) == DecodeWith(c, ns, cd, DecodeBoundaryFixed)
+DecodeImpl(c, ns, cd)    == DecodeWith(c, ns, cd, DecodeBoundaryImpl)
+DecodeImplOld(c, ns, cd) == DecodeWith(c, ns, cd, DecodeBoundaryImplOld)
 
 \* ---------------------------------------------------------------------------
 \* io/meshio.py:42-50  HEX_MAPPING (first 8 entries), 1-based; 262-299 to_meshio, 53-259 from_meshio
@@ -107,8 +120,8 @@ FromMeshioWith(file, Decoder(_, _, _), Conn(_)) ==
       c  == Conn(m)                                                                       \* mtmp, 124
       d  == Decoder(c, NSlots(file.kind), file.cell_data)                                 \* 236-239
   IN [tm |-> m @@ [sub |-> d.sub, bnd |-> d.bnd], c |-> c]                                \* 247-252
-FromMeshioImpl(file)  == FromMeshioWith(file, DecodeImpl, ConnOf)
-FromMeshioFixed(file) == FromMeshioWith(file, DecodeFixed, ConnOf)
+FromMeshioImpl(file)    == FromMeshioWith(file, DecodeImpl, ConnOf)
+FromMeshioImplOld(file) == FromMeshioWith(file, DecodeImplOld, ConnOf)
 
 \* ---------------------------------------------------------------------------
 \* C17, relational.  pre / post : abstract meshes (Tags.tla) with two more fields:
